@@ -62,6 +62,11 @@ def shards(tier, seed):
             if a not in ('SA', 'SB'):
                 continue     # nothing to observe before a string is stored
             out.append(dict(kind='cache', first=[a, b], L=Lc, cfg=list(cfg)))
+            if tier != 'thorough':
+                # one level deeper where a collection follows at once
+                # (freed node numbers are reused by what comes next)
+                out.append(dict(kind='cache', first=[a, b, 'GC'], L=Lc + 1,
+                                cfg=list(cfg), exact=True))
     return out
 
 
@@ -73,7 +78,10 @@ def cases(shard):
                 yield dict(kind='gen', seq=list(shard['first']) + list(rest),
                            cfg=shard['cfg'])
     else:
-        for n in range(0, shard['L'] - 1):
+        lens = range(0, shard['L'] - 1)
+        if shard.get('exact'):
+            lens = [shard['L'] - len(shard['first'])]
+        for n in lens:
             for rest in itertools.product(CACHE, repeat=n):
                 seq = shard['first'] + list(rest)
                 # only sequences that end in an observation
